@@ -175,10 +175,22 @@ def evaluate(case) -> Outcome:
             out.label("result:empty")
 
         # sid.match(s) <=> found in [str(sid)]
+        cands = []
         for e in list(dict.fromkeys(L))[:6]:
-            sid = Sid(e)
-            if not sid:
+            sid0 = Sid(e)
+            if not sid0:
                 continue
+            cands.append(sid0)
+            # the same string under every other type that accepts it (e.g. a cache node named like an extension):
+            # match is defined through a list search on the STRING, so the answer may not depend on the type
+            for tt in list(m.types_all(e))[:3]:
+                if tt != sid0.type:
+                    alt_sid = Sid(tt + ":" + e)
+                    if alt_sid:
+                        cands.append(alt_sid)
+                        out.label("match:forced-other-type")
+        for sid in cands:
+            e = sid.uri
             exp_m = any(refsearch.glob_match(f.string, str(sid)) for f in forms)
             okm, gm = call(sid.match, s)
             out.evaluations += 1
